@@ -21,6 +21,13 @@ pub trait Suite: RandomizedCiphersuite {
     /// sha2/sha3 directly and Horner reduction; does not call the suite crate's hash helpers.
     fn indep_challenge(r_enc: &[u8], pk_enc: &[u8], msg: &[u8]) -> Sc<Self>;
 
+    /// Expected post-processing of DKG output, written independently of the suite crate:
+    /// maps (sum of constant-term commitments, sum of received shares) to (group key, signing share).
+    /// Identity for every suite except Taproot (BIP-341 key-path-only tweak after even-Y normalisation).
+    fn indep_post_dkg(sum_key: El<Self>, share: Sc<Self>) -> (El<Self>, Sc<Self>) {
+        (sum_key, share)
+    }
+
     /// A second, fully external verifier where one exists in the registry.
     fn ext_verify(_vk: &[u8], _msg: &[u8], _sig: &[u8]) -> Option<bool> {
         None
@@ -185,6 +192,13 @@ impl Suite for frost_secp256k1_tr::Secp256K1Sha256TR {
         h.update(msg);
         sc_from_be_bytes_mod::<Self>(&h.finalize())
     }
+    fn indep_post_dkg(sum_key: El<Self>, share: Sc<Self>) -> (El<Self>, Sc<Self>) {
+        // BIP-341: Q = P + int(hash_TapTweak(bytes(P))) G with P taken with even Y
+        let enc = el_bytes::<Self>(&sum_key).expect("non-identity key");
+        let (p_even, s_even) = if enc[0] == 3 { (ident::<Self>() - sum_key, neg::<Self>(share)) } else { (sum_key, share) };
+        let t = tap_tweak_scalar::<Self>(&enc[1..], &[]);
+        (p_even + g::<Self>() * t, s_even + t)
+    }
     fn ext_verify(vk: &[u8], msg: &[u8], sig: &[u8]) -> Option<bool> {
         let secp = secp256k1::Secp256k1::verification_only();
         let px = if vk.len() == 33 { &vk[1..] } else { vk };
@@ -194,6 +208,17 @@ impl Suite for frost_secp256k1_tr::Secp256K1Sha256TR {
         let sig = secp256k1::schnorr::Signature::from_byte_array(sig.try_into().ok()?);
         Some(secp.verify_schnorr(&sig, msg, &pk).is_ok())
     }
+}
+
+/// BIP-341 tweak scalar int(hash_TapTweak(x || root)) mod n, from the BIP text.
+pub fn tap_tweak_scalar<C: Suite>(px: &[u8], root: &[u8]) -> Sc<C> {
+    let tag = Sha256::digest(b"TapTweak");
+    let mut h = Sha256::new();
+    h.update(tag);
+    h.update(tag);
+    h.update(px);
+    h.update(root);
+    sc_from_be_bytes_mod::<C>(&h.finalize())
 }
 
 /// Independent plain Schnorr verification of encoded `(vk, msg, sig)`:
